@@ -143,7 +143,7 @@ def arg_kinds(args):
     return ",".join("fn" if isinstance(a, JFn) else R.jtype(a) for a in args)
 
 
-def check_call(acc, w, prop, fname, args, laws=None, named=None):
+def check_call(acc, w, prop, fname, args, laws=None, named=None, classify=None):
     """evaluate std.<fname>(args) and compare with the reference; returns (ref, got)"""
     ref = reference(fname, args)
     parts = [render(a) for a in args]
@@ -178,8 +178,10 @@ def check_call(acc, w, prop, fname, args, laws=None, named=None):
     if same:
         acc.distinct(src)
     else:
-        acc.violation({"oracle": "differs-from-definition", "fn": fname, "expected": ref[0], "got": got[0],
-                       "arg_kinds": arg_kinds(args)}, dict(wit, observed=got))
+        sig = {"oracle": "differs-from-definition", "fn": fname, "expected": ref[0], "got": got[0], "arg_kinds": arg_kinds(args)}
+        if classify:
+            sig.update(classify(fname, args, ref, got) or {})
+        acc.violation(sig, dict(wit, observed=got))
     return ref, got
 
 
